@@ -221,6 +221,48 @@ func (s *spec) build() []schema.Change {
 			to := &schema.EnumType{T: enumT.T, Values: append(append([]string{}, enumT.Values...), s.get("enumval", "off")+"2"), Schema: sc}
 			cs = append(cs, &schema.ModifyObject{From: enumT, To: to})
 		}
+	case 3: // modify / drop column, drop check, modify index: the SQLite planner rebuilds the table
+		// (PRAGMA foreign_keys, CREATE TABLE new_, INSERT ... SELECT, DROP, RENAME), MySQL MODIFY COLUMN,
+		// PostgreSQL ALTER COLUMN ... TYPE / SET DEFAULT / COMMENT ON COLUMN
+		to := schema.NewColumn(s.get("column", "name")).SetType(intT(d)).SetNull(false)
+		if v, ok := s.hot["ccomment"]; ok {
+			to.SetComment(v + "x")
+		}
+		if v, ok := s.hot["default"]; ok {
+			to.SetDefault(&schema.Literal{V: sqlLit(d, v+"z")})
+		}
+		mt := &schema.ModifyTable{T: t, Changes: []schema.Change{
+			&schema.ModifyColumn{From: c1, To: to, Change: schema.ChangeType | schema.ChangeNull | schema.ChangeDefault | schema.ChangeComment},
+		}}
+		extra := schema.NewColumn("extra").SetType(textT(d)).SetNull(true)
+		if v, ok := s.hot["default"]; ok {
+			extra.SetDefault(&schema.Literal{V: sqlLit(d, v)})
+		}
+		mt.Changes = append(mt.Changes, &schema.DropColumn{C: extra})
+		if _, ok := s.hot["check-expr"]; ok || s.hot["check-name"] != "" {
+			for _, a := range t.Attrs {
+				if ck, ok := a.(*schema.Check); ok {
+					mt.Changes = append(mt.Changes, &schema.DropCheck{C: ck})
+				}
+			}
+		}
+		idx2 := schema.NewIndex(s.get("index", "idx_name")).AddColumns(c1, id)
+		idx2.Table = t
+		if v, ok := s.hot["icomment"]; ok {
+			idx2.SetComment(v + "y")
+		}
+		if d.name == "postgres" {
+			mt.Changes = append(mt.Changes, &schema.ModifyIndex{From: idx, To: idx2, Change: schema.ChangeParts})
+		} else {
+			mt.Changes = append(mt.Changes, &schema.ModifyIndex{From: idx, To: idx2, Change: schema.ChangeParts | schema.ChangeComment})
+		}
+		cs = append(cs, mt)
+		if enumT != nil && d.name == "mysql" {
+			to2 := &schema.EnumType{T: enumT.T, Values: append([]string{"zero"}, enumT.Values...)}
+			stc, _ := t.Column("st")
+			cs = append(cs, &schema.ModifyTable{T: t, Changes: []schema.Change{
+				&schema.ModifyColumn{From: stc, To: schema.NewColumn("st").SetType(to2), Change: schema.ChangeType}}})
+		}
 	case 2: // rename / drop
 		to := schema.NewTable(s.get("rename-to", "users_new")).SetSchema(sc)
 		to.AddColumns(id, c1)
@@ -262,7 +304,7 @@ func singles() []*spec {
 	for _, d := range dialects {
 		for _, r := range roles {
 			for _, h := range hots {
-				for shape := 0; shape < 3; shape++ {
+				for shape := 0; shape < 4; shape++ {
 					if d.name == "sqlite" && (r == "enum-type" || r == "enumval" || r == "schema") {
 						continue // no enums / CREATE SCHEMA in SQLite; the type name is written as given
 					}
@@ -282,7 +324,9 @@ func roleInShape(r string, shape int) bool {
 	case "rename-to":
 		return shape == 2
 	case "fk":
-		return shape != 2
+		return shape < 2
+	case "schema", "enum-type":
+		return shape != 3 || r == "enum-type"
 	case "default", "ccomment", "icomment", "check-expr", "check-name", "tcomment":
 		return shape != 2
 	}
@@ -293,7 +337,7 @@ func roleInShape(r string, shape int) bool {
 func combos(r *rng.R, n int) []*spec {
 	var out []*spec
 	for i := 0; i < n; i++ {
-		s := &spec{d: rng.Pick(r, dialects), hot: map[string]string{}, shape: r.Intn(3)}
+		s := &spec{d: rng.Pick(r, dialects), hot: map[string]string{}, shape: r.Intn(4)}
 		k := 2 + r.Intn(3)
 		for j := 0; j < k; j++ {
 			role := rng.Pick(r, roles)
